@@ -130,7 +130,7 @@ pub fn ws(args: &Value) -> Outcome {
         // the probe: a query that must be answered (or the connection closed) in time
         let start = if proto == Protocols::GraphQLWS { "subscribe" } else { "start" };
         tx.send(format!("{{\"type\":\"{}\",\"id\":\"probe\",\"payload\":{{\"query\":\"{{ value }}\"}}}}", start)).await.unwrap();
-        let deadline = std::time::Duration::from_millis(1500);
+        let deadline = std::time::Duration::from_millis(6000);
         loop {
             match tokio::time::timeout(deadline, stream.next()).await {
                 Err(_) => return Err(format!("no progress for {:?} after {:?}", deadline, seen)),
